@@ -293,4 +293,31 @@ Section ExecProofs.
     rewrite energy_sub_eng, energy_sub_bal by assumption. rewrite Hok. split; [|reflexivity].
     rewrite Hpre. lia.
   Qed.
+  (* the same over ANY address set: with dom = [a] this is the per-account statement — the payer (and only the payer) is
+     charged exactly gasUsed x price, the beneficiary (and only it) receives the reward, every account whose funds the
+     clauses leave alone keeps its energy *)
+  Theorem energy_delta_any_set_lemma e t ci st0 st rc dom :
+    let T := e_time e in let S := e_stop e in
+    clauses_neutral T S dom -> NoDup dom ->
+    exec_tx W O clause_result write_credit e t ci st0 = Done W O st rc ->
+    sum_eng T S dom (l_acc (fst st)) = sum_eng T S dom (l_acc (fst st0))
+        + (if member (e_benef e) dom then r_reward O rc else 0) - (if member (r_payer O rc) dom then r_paid O rc else 0) /\
+    sum_bal dom (l_acc (fst st)) = sum_bal dom (l_acc (fst st0)).
+  Proof.
+    intros T S N ND. unfold exec_tx. destruct (resolve t); [discriminate|]. destruct (_ <? t_gas t); [discriminate|].
+    destruct (buy_gas e t ci (fst st0)) as [|b] eqn:EB; [discriminate|]. apply buy_gas_spec in EB.
+    destruct EB as [Hpre [Hled [Hok _]]].
+    destruct (t_ctx_err t); [discriminate|].
+    destruct (run_clauses _ _ _ _ _ _ _ _ _ _) as [[[[lft st2] outs] rev] log] eqn:ERC.
+    intros H; inversion H; subst; clear H. cbn in *.
+    fold T S in Hled, Hok |- *.
+    rewrite energy_add_eng_any, energy_add_bal_any by assumption.
+    rewrite energy_add_eng_any, energy_add_bal_any by assumption.
+    assert (E2 : sum_eng T S dom (l_acc (fst st2)) = sum_eng T S dom (l_acc (b_led b)) /\
+                 sum_bal dom (l_acc (fst st2)) = sum_bal dom (l_acc (b_led b))).
+    { apply (run_clauses_neutral T S dom N) in ERC. destruct ERC as [[-> _]|ERC]; [split; reflexivity|exact ERC]. }
+    destruct E2 as [E2 E3]. rewrite E2, E3, Hled.
+    rewrite energy_sub_eng_any, energy_sub_bal_any by assumption. rewrite Hok. cbn [andb]. split; [|reflexivity].
+    rewrite Hpre. destruct (member (b_payer b) dom), (member (e_benef e) dom); lia.
+  Qed.
 End ExecProofs.
